@@ -239,7 +239,7 @@ func runC02(r *Run) {
 	rr := r.Rng
 	n := 1200
 	if r.Thorough() {
-		n = 12000
+		n = 40000
 	}
 	for c := 0; c < n; c++ {
 		full := rr.Intn(6) == 0
